@@ -28,10 +28,12 @@ THOROUGH_TESTS = QUICK_TESTS + ["tests/calibration", "tests/running_mode", "test
 def tree_key() -> str:
     """Content hash of the python sources of the repository under test (cache key)."""
     h = hashlib.sha1()
-    root = Path(px.REPO) / "pyxel"
-    for f in sorted(root.rglob("*.py")):
-        h.update(str(f.relative_to(root)).encode())
-        h.update(f.read_bytes())
+    for sub, pats in (("pyxel", ("*.py",)), ("tests", ("*.py", "*.yaml", "*.yml"))):
+        root = Path(px.REPO) / sub
+        for pat in pats:
+            for f in sorted(root.rglob(pat)):
+                h.update(str(f.relative_to(root)).encode())
+                h.update(f.read_bytes())
     return h.hexdigest()[:16]
 
 
@@ -267,6 +269,30 @@ def project_run(evs: list) -> dict:
                      "times": times, "start": start}}
 
 
+def seed_streams(events: list) -> list:
+    """Per process: the seeded-block events in the order of the per-process sequence number."""
+    per: dict = {}
+    for ev in events:
+        if ev["e"] in ("seed_enter", "seed_exit"):
+            per.setdefault((ev["_file"], ev["pid"]), []).append(ev)
+    out = []
+    for key, evs in per.items():
+        evs.sort(key=lambda e: e["seq"])
+        names: dict = {}
+        tr = []
+        for ev in evs:
+            if ev["tid"] not in names:
+                if len(names) >= 8:
+                    break
+                names[ev["tid"]] = f"t{len(names) + 1}"
+            tr.append({"e": ev["e"], "t": names[ev["tid"]], "seed": int(ev["seed"]) % (2 ** 31),
+                       "state": {"stream": -5, "seq": [ev["state"]]}})
+        # a process killed inside a block leaves an open tail: prefixes are fine
+        out.append({"events": tr, "meta": {"file": key[0], "pid": key[1], "threads": len(names),
+                                            "tests": sorted({e.get("test", "") for e in evs})[:5]}})
+    return out
+
+
 def dedupe(traces: list) -> list:
     seen, out = set(), []
     for t in traces:
@@ -289,7 +315,8 @@ def gather(tier: str) -> dict:
     events = read_events(sorted(str(f) for f in d.glob("*.ndjson")))
     runs, stats = cut_runs(events)
     traces = dedupe([project_run(r) for r in runs])
-    out = {"traces": traces, "stats": {"events": len(events), "runs": len(runs), "distinct_runs": len(traces),
+    seeds = seed_streams(events)
+    out = {"traces": traces, "seed_traces": seeds, "stats": {"events": len(events), "runs": len(runs), "distinct_runs": len(traces),
                                       "multi_step_runs": sum(1 for t in traces if len(t["cfg"]["times"]) > 1),
                                       "tests": info, "examples": examples, **stats}}
     cache.parent.mkdir(parents=True, exist_ok=True)
@@ -378,3 +405,28 @@ def replay(ctx, payload):
     for k, l in rejected:
         ctx.violation("hooks.replay", f"stored hook trace rejected at event {l}", payload["case"], {})
     return ctx.finish()
+
+
+def check_seed(ctx):
+    """C04 on the recorded seeded blocks of the repository's tests and examples (SeedHookTrace)."""
+    data = gather(ctx.tier)
+    traces = [t for t in data.get("seed_traces", []) if t["events"]]
+    ctx.notes["hook_seed_streams"] = {"processes": len(traces), "events": sum(len(t["events"]) for t in traces)}
+    if not traces:
+        return
+    stripped = [{"events": t["events"]} for t in traces]
+
+    def corrupt(tr):
+        for ev in tr["events"]:
+            if ev["e"] == "seed_exit":
+                ev["state"] = {"stream": -5, "seq": ["corrupted"]}
+                return tr
+        return None
+    rejected = ctx.validate("SeedHookTrace", stripped, label="seedhooks", corrupt=corrupt, cfg="SeedHookTrace.cfg")
+    for k, l in rejected:
+        evs = traces[k]["events"]
+        ev = evs[l - 1] if 1 <= l <= len(evs) else {"e": "?"}
+        sig = "hooks.seed-restored" if ev["e"] == "seed_exit" else "hooks.seed-overlap"
+        ctx.violation(sig, f"seeded block recorded while running {traces[k]['meta']['tests']}: event {l} {ev} is not a step "
+                      "of PyxelSeedThreads (state at exit differs from the state saved at entry, or blocks of two threads overlap)",
+                      {"kind": "seedhooktrace", "trace": stripped[k], "meta": traces[k]["meta"]}, {"event": ev["e"]})
